@@ -89,3 +89,21 @@ V("C17", "eig_precheck_continues", "violation", ("andes/routines/eig.py", "     
 V("C17", "main_none_system_ok", "violation", ("andes/main.py", "        if system is not None:\n            ex_code += system.exit_code\n        else:\n            ex_code += 1", "        if system is not None:\n            ex_code += system.exit_code"), rule="C17.aggregate")
 V("C17", "nk_except_success", "violation", (PFLOW, "            logger.error(e)\n            self.converged = False", "            logger.error(e)\n            self.converged = True"), rule="C17.success")
 V("C17", "benign_exit_code_value", "silent", (PFLOW, "            system.exit_code = 1\n            return False", "            system.exit_code = 2\n            return False"))
+
+# ---------------- C06
+PARAM = "andes/core/param.py"
+TIMER = "andes/models/timer.py"
+V("C06", "is_time_isclose", "violation", (PARAM, "        return np.equal(dae_t, self.v)", "        return np.isclose(dae_t, self.v)"), rule="C06.comparator")
+V("C06", "is_time_ge", "violation", (PARAM, "        return np.equal(dae_t, self.v)", "        return np.greater_equal(dae_t, self.v)"), rule="C06.comparator")
+V("C06", "do_switch_isclose", "violation", (TDS, "if np.equal(system.dae.t, system.switch_times[self._switch_idx]):", "if np.isclose(system.dae.t, system.switch_times[self._switch_idx]):"), rule="C06.comparator")
+V("C06", "benign_is_time_eq_operator", "silent", (PARAM, "        return np.equal(dae_t, self.v)", "        return dae_t == self.v"))
+V("C06", "calc_h_skip_event", "violation", (TDS, "        # do not skip over event switch_times\n", "        if self._switch_idx < system.n_switches:\n            if (not resume) and (system.dae.t == system.switch_times[self._switch_idx]):\n                self._switch_idx += 1\n\n        # do not skip over event switch_times\n"), rule="C06.advance")
+V("C06", "no_advance_after_dispatch", "violation", (TDS, "                # progress `_switch_idx` to avoid calling the same event if time gets stuck\n                self._switch_idx += 1\n", ""), rule="C06.advance")
+V("C06", "init_no_t0_dispatch", "violation", (TDS, "        if self.data_csv is None:\n            self.do_switch()\n", ""), rule="C06.t0")
+V("C06", "toggle_ignores_u", "violation", (TIMER, "            if (is_time[i] == 0) or (self.u.v[i] == 0):\n                continue\n\n            instance = self.system.__dict__[self.model.v[i]]", "            if (is_time[i] == 0):\n                continue\n\n            instance = self.system.__dict__[self.model.v[i]]"), rule="C06.callback")
+V("C06", "clear_fault_wrong_index", "violation", (TIMER, "            if is_time[i] and (self.u.v[i] == 1):\n                self.uf.v[i] = 0", "            if is_time[i] and (self.u.v[i] == 1):\n                self.uf.v[0] = 0"), rule="C06.callback")
+V("C06", "alter_guard_or", "violation", (TIMER, "            if (not is_time[ii]) or (self.u.v[ii] == 0):", "            if (not is_time[ii]) and (self.u.v[ii] == 0):"), rule="C06.callback")
+V("C06", "schedule_overwrite", "violation", (SYSTEM, "                self.switch_dict[i].update({j: self.models[j]})", "                self.switch_dict[i] = {j: self.models[j]}"), rule="C06.schedule")
+V("C06", "schedule_drops_current", "violation", (SYSTEM, "ltzero_idx = np.where(out >= self.dae.t)[0]", "ltzero_idx = np.where(out > self.dae.t)[0]"), rule="C06.schedule")
+V("C06", "no_switch_clip", "violation", (TDS, "                self.h = system.switch_times[self._switch_idx] - system.dae.t\n", "                pass\n"), rule="C06.clip")
+V("C06", "benign_callback_guard_form", "silent", (TIMER, "            if (is_time[i] == 0) or (self.u.v[i] == 0):\n                continue\n\n            instance = self.system.__dict__[self.model.v[i]]", "            if not (is_time[i] and self.u.v[i] != 0):\n                continue\n\n            instance = self.system.__dict__[self.model.v[i]]"))
